@@ -1,9 +1,9 @@
 (* C11 — substitution replaces variables simultaneously and keeps the rest.  Property theorems only. *)
 From Coq Require Import List Arith ZArith.
 Import ListNotations.
-From Exmex.Model Require Import Base EvalBinary Lexer Flat Deep.
+From Exmex.Model Require Import Base EvalBinary Lexer Flat Deep Convert.
 From Exmex.Spec Require Import RefSem.
-From Exmex.Proofs Require Import Vars DeepSem DeepCompile DeepVars DeepSubs DeepParse C03Main C11Main.
+From Exmex.Proofs Require Import Vars DeepSem DeepCompile DeepVars DeepSubs DeepParse C03Main C11Main ConvertCompose FlatCalc.
 Open Scope nat_scope.
 
 (* Vocabulary (Proofs/DeepSubs.v, Proofs/C11Main.v):
@@ -90,6 +90,27 @@ Proof.
   revert H5. apply dwf_weaken; [intros i x H; exact H|]. intros w [Hl _]. unfold short_list. rewrite map_length in Hl. exact Hl.
 Qed.
 
+(* 5. Calculate::subs on FLAT expressions (convert the expression and every replacement to the deep form, substitute,
+   convert back): for flat expressions the conversions accept, and replacements that are such expressions, the pipeline
+   succeeds, the result is again such an expression over the sorted union of names, and its value at every assignment is
+   the original evaluated with every replaced variable bound to the denotation of its (converted) replacement. *)
+Theorem C11_flat_substitution :
+  forall (D : Type) (C : carrier D) (tb : optable), wf_table tb = true ->
+  forall (R : D -> D -> Prop),
+  (forall a, R a a) -> (forall a b, R a b -> R b a) -> (forall a b c, R a b -> R b c -> R a c) ->
+  (forall k a a' b b', R a a' -> R b b' -> R (binf C k a b) (binf C k a' b')) ->
+  (forall k a a', R a a' -> R (unf C k a) (unf C k a')) ->
+  (forall k, comm_of tb k = true -> forall a b c, R (binf C k (binf C k a b) c) (binf C k a (binf C k b c))) ->
+  forall (fa : flatex D) (subf : str -> option (flatex D)),
+  flat_ok C tb fa -> (forall x f, subf x = Some f -> flat_ok C tb f) ->
+  exists da r fx,
+    to_deepex C tb true fa = Ok da /\ subs C (lift_sub C tb subf) da = Ok r /\ from_deepex C tb true r = Ok fx /\
+    flat_ok C tb fx /\ fvars fx = sort_strs (snames (lift_sub C tb subf) da) /\
+    forall vals', length vals' = length (fvars fx) ->
+    exists v w, eval_flat C fx vals' = Ok v /\
+                eval_flat C fa (map (senv C (lift_sub C tb subf) (env_of C (fvars fx) vals')) (fvars fa)) = Ok w /\ R v w.
+Proof. exact @flat_subs. Qed.
+
 (* non-vacuity: in x*y+2 replace x by y+x (self-referential) and y by 3, simultaneously *)
 Definition ex_tb : optable :=
   [ {| repr := [43]%N; obin := Some {| prio := 0; comm := true |}; ounary := true; oconst := false |};
@@ -108,10 +129,9 @@ Example C11_example :
   = Ok ([X; Y], Bin 0 (Bin 1 (Bin 0 (V 1) (V 0)) (Lit [51%N])) (Lit [50%N])).
 Proof. vm_compute. reflexivity. Qed.
 
-(* Outside these theorems (covered by the correspondence of this check): Calculate::subs on FLAT expressions, which
-   converts to the deep form, substitutes and converts back (the conversions are not yet in a theorem), and unparse of
-   substituted expressions. *)
+(* Outside these theorems (covered by the correspondence of this check): unparse of substituted expressions. *)
 Print Assumptions C11_substitution_is_simultaneous.
 Print Assumptions C11_replacement_evaluated_on_its_own_variables.
 Print Assumptions C11_named_denotation.
 Print Assumptions C11_parsed_expressions_qualify.
+Print Assumptions C11_flat_substitution.
